@@ -53,6 +53,8 @@ pub struct RunResult {
     pub iter_orders: Vec<IterRecord>,
     pub dir_orders: Vec<(String, Vec<String>)>,
     pub panic: Option<String>,
+    /// `process::exit(code)` called by the generator
+    pub exit_code: Option<i32>,
     pub diverged: bool,
     pub leftover_decisions: usize,
     pub verbose_log: Option<Vec<String>>,
@@ -94,14 +96,43 @@ pub fn execute(gen: Gen, image: &Arc<FsImage>, mode: Mode, collect: bool, verbos
         Gen::Likely => crate::gens::likely::run(),
     }));
     let w = world::uninstall();
+    let mut exit_code = None;
     let panic = match r {
         Ok(()) => None,
-        Err(_) => Some(
-            world::PANIC_INFO
-                .with(|p| p.borrow_mut().take())
-                .unwrap_or_else(|| "<panic without recorded message>".into()),
-        ),
+        Err(payload) => match payload.downcast_ref::<crate::seams::simenv::ExitRequest>() {
+            Some(e) => {
+                exit_code = Some(e.0);
+                if e.0 == 0 {
+                    None
+                } else {
+                    Some(format!("generator called process::exit({})", e.0))
+                }
+            }
+            None => Some(
+                world::PANIC_INFO
+                    .with(|p| p.borrow_mut().take())
+                    .unwrap_or_else(|| "<panic without recorded message>".into()),
+            ),
+        },
     };
+    // what the generator produced: its stdout; if it printed nothing but wrote files, the file
+    // that replaces the checked-in table (or, failing that, everything it wrote)
+    let mut out = w.out;
+    if out.trim().is_empty() && !w.written.is_empty() {
+        let want = match gen {
+            Gen::Layout => "layout_table.rs",
+            Gen::Likely => "tables.rs",
+        };
+        let pick: Vec<&Vec<u8>> = match w.written.iter().find(|(k, _)| k.ends_with(want)) {
+            Some((_, v)) => vec![v],
+            None => w.written.values().collect(),
+        };
+        out = pick
+            .into_iter()
+            .map(|v| String::from_utf8_lossy(v).into_owned())
+            .collect::<Vec<_>>()
+            .join("\n");
+    }
     let leftover = match &w.mode {
         Mode::Replay { q } => q.len(),
         _ => 0,
@@ -110,13 +141,14 @@ pub fn execute(gen: Gen, image: &Arc<FsImage>, mode: Mode, collect: bool, verbos
         gen,
         profile,
         trace: w.trace,
-        out: w.out,
+        out,
         log_digest: w.log.0,
         events: w.events,
         stats: w.stats,
         iter_orders: w.iter_orders,
         dir_orders: w.dir_orders,
         panic,
+        exit_code,
         diverged: w.diverged,
         leftover_decisions: leftover,
         verbose_log: w.verbose_log,
@@ -139,13 +171,32 @@ pub fn replay_mode(schedule: &[Decision]) -> Mode {
 /// R1 + R2 for one run. `good` caches outputs already judged equal to the compiled tables.
 pub fn judge(r: &RunResult, comp: &BTreeMap<String, Val>, good: &mut Vec<String>) -> Vec<Violation> {
     if let Some(p) = &r.panic {
-        let first = p.lines().next().unwrap_or("").to_string();
+        // identity of a crash = where it happened + its message with numbers masked (JSON error
+        // positions, lengths and the like differ from schedule to schedule)
+        let first = p.lines().next().unwrap_or("");
+        let (msg, loc) = match first.rfind(" at ") {
+            Some(i) => (&first[..i], &first[i + 4..]),
+            None => (first, ""),
+        };
+        let mut masked = String::new();
+        let mut in_num = false;
+        for c in msg.chars().take(120) {
+            if c.is_ascii_digit() {
+                if !in_num {
+                    masked.push('#');
+                }
+                in_num = true;
+            } else {
+                in_num = false;
+                masked.push(if c == ':' { ';' } else { c });
+            }
+        }
         return vec![Violation {
             class: "R1".into(),
             table: "-".into(),
-            signature: format!("R1:{}:panic:{}", r.gen.name(), first),
+            signature: format!("R1:{}:panic:{}:{}", r.gen.name(), loc.replace(':', "#"), masked),
             detail: format!(
-                "generator {} panicked under a legal directory/hash order: {}",
+                "generator {} did not run to completion under a legal schedule (directory order, hash order, stream behaviour): {}",
                 r.gen.program(),
                 p
             ),
